@@ -45,6 +45,12 @@ TEXT = {
             "each, covering all iterators, reference forms, dense co-iteration, project / prune and lazy re-iteration, "
             "compared with a list model; tree snapshots before/after.",
             "Trusts the builders; start_pos restricted to legal shortcuts; U format without custom active range; shapes<=8."),
+    "C08": ("Hypothesis PBT: partitions recomputed from the element list (boundary / halo / active-range model)",
+            "Generated fibers and tensors (depth 1-3, explicit defaults, empty sub-fibers, active ranges) x all six split "
+            "kinds x halos x relativeCoords x split depth x optional re-split of the lower rank; fiber level compared "
+            "structurally (upper coordinates, partition elements, payloads, active ranges), tensor level as content per "
+            "fiber of the rank plus active ranges; operand immutability.",
+            "Compressed ranks only; re-split only of absolute-coordinate partitions; steps/sizes >= 1."),
     "C11": ("Exhaustive operator matrix + Hypothesis PBT on fiber pairs vs Python operators on the unboxed values",
             "All 131 cells of the operator x operand-kind matrix enumerated with a fixed value table and sampled with drawn "
             "ints / dyadic floats; result value and type, operand immutability, same-box identity for in-place forms; "
@@ -60,6 +66,14 @@ TEXT = {
             "swizzle / flatten / split chains (tuple coordinates, tuple shapes); content, shape, rank ids, names checked "
             "after every conversion; rank-0 enumerated; fromRandom reproducibility, bounds and density-1 fill.",
             "YAML / dict forms carry no default (documented Todo): defaults are re-applied before comparing."),
+    "C17": ("Hypothesis PBT + exhaustive small domain: buffet window accounting, furthest-next-use reference and "
+            "exhaustive optimal-replacement search, metamorphic relations",
+            "Synthetic and kernel-derived traces, 1-3 bindings, all evict-on choices, capacities and line sizes; buffet "
+            "and cache traffic compared with reference accounting; exhaustive minimum-fill search on small read-only "
+            "cases; bounds, capacity monotonicity, intra-line permutation invariance; filterTrace and _combineTraces "
+            "models; temporary files removed.",
+            "Exact cache comparison skipped (bounds only) where pinned staging lines exceed capacity or same-stamp ties "
+            "make the optimum ambiguous."),
     "C18": ("Hypothesis PBT + exhaustive small domain: footprint sums recomputed from a raw tree walk",
             "Generated tensors (depth 1-3, explicit defaults, empty sub-fibers, all build routes) x random per-rank format "
             "specifications with missing fields; every Format query compared with sums over a raw walk; all trees over "
